@@ -1150,13 +1150,15 @@ static void run_cases(void)
 				for (int tail = 0; tail < 4; tail++) {
 					if (pairs && tail > 1)
 						continue;
-					for (int a = 0; a < NALPHA; a++) {
+					/* the hostile alphabet only: what a symbol of the semantic sub-alphabet means depends on
+					 * its position in a response and is judged in the "semantic" set */
+					for (int a = 0; a < SEM0; a++) {
 						if (!pairs) {
 							c = (struct stream_case){entry, prefix, {a, -1, -1}, tail, 0};
 							RUN_CASE();
 							continue;
 						}
-						for (int b = 0; b < NALPHA; b++) {
+						for (int b = 0; b < SEM0; b++) {
 							c = (struct stream_case){entry, prefix, {a, b, -1}, tail, 0};
 							RUN_CASE();
 						}
